@@ -20,6 +20,10 @@ CONSTANTS
   ReadNotCounted = FALSE
   SqueezedFits = FALSE
   ReopenClampsMap = FALSE
+  LiveSized = FALSE
+  Page = 1
+  PageBySkipCur = FALSE
+  PageFreshSnap = FALSE
   BatchMax = 1
   MaxOps = 14
   WithReads = FALSE
